@@ -376,6 +376,14 @@ class NDArr:
     def __pow__(self, o):
         return self._bin(o, lambda a, b: a ** b)
 
+    def sort(self, axis=-1, **kw):
+        """in-place sort (1-D): writes the sorted values into the shared buffer"""
+        if self._a.ndim != 1:
+            raise ModelGap("in-place sort of an array with ndim != 1")
+        vals = _sorted(list(self._a))
+        for i, v in enumerate(vals):
+            self._a[i] = v
+
     # --- in-place arithmetic writes into the shared buffer (views / aliases see it, as with numpy)
     def _iop(self, o, f):
         r = f(self, o)
